@@ -1,5 +1,5 @@
 // auto-generated: "lalrpop 0.23.1"
-// sha3: 5c4ec292d29da73d29e5eba7aa1761be2f34da591796e786e6194b6c2e528386
+// sha3: 845884d3bdac1294a9b896927381823e179f8e3f9694be2ab07b152a5146abc4
 #[allow(unused_extern_crates)]
 extern crate lalrpop_util as __lalrpop_util;
 #[allow(unused_imports)]
@@ -726,7 +726,7 @@ fn __action8<
     (_, __0, _): (usize, &'input str, usize),
 ) -> String
 {
-    { let (x, y) = ({ let r#type = [1, 2, 3]; r#type[(0 + 1)].to_string() }, match (b'}' as char.to_string(), { /* } , ; */ let v = vec![(1, 2), (3, 4)]; // }
+    { let (x, y) = ({ let r#type = [1, 2, 3]; r#type[(0 + 1)].to_string() }, match ((b'}' as char).to_string(), { /* } , ; */ let v = vec![(1, 2), (3, 4)]; // }
  v[1].0.to_string() }) { (a, b) => { let mut s = a; s.push_str(&b); s } }); x + &y }
 }
 
